@@ -26,7 +26,8 @@ from .sv import SV, EngineError, is_conc, norm
 
 
 class Tok:
-    """a token hole ⟨kind, value⟩; kind in {'int', 'float'}"""
+    """a token hole ⟨kind, value⟩; kind in {'int', 'float'}; kind 'sym': an unknown word, value = dict of the string predicates
+    the model gives it (e.g. {'isnumeric': <bool term>})"""
     __slots__ = ("kind", "value")
 
     def __init__(self, kind, value):
@@ -64,11 +65,19 @@ def _pick_tok(items, c):
 
 
 class LineVal:
-    """a line returned by readline(): eof (bool/SV) or tokens"""
-    __slots__ = ("eof", "toks")
+    """a line returned by readline(): eof (bool/SV) or tokens.  `props`: optional string predicates of a symbolic line,
+    {'startswith': fn(prefix) -> bool term, 'eq': fn(string) -> bool term}"""
+    __slots__ = ("eof", "toks", "props")
 
-    def __init__(self, toks=None, eof=False):
-        self.toks, self.eof = toks, eof
+    def __init__(self, toks=None, eof=False, props=None):
+        self.toks, self.eof, self.props = toks, eof, props
+
+
+def line_eq(line, s):
+    """line == s for a file line and a python string"""
+    if line.props and "eq" in line.props:
+        return line.props["eq"](s)
+    raise EngineError("comparison of a file line with a string (the line model gives no `eq` predicate)")
 
 
 def int_of(v):
@@ -135,8 +144,11 @@ def open_file(interp, path, mode="r", **kw):
     reg = getattr(st, "files", None) or {}
     key = path if isinstance(path, str) else repr(path)
     if key in reg:
-        pos0, line_fn = reg[key]
-        return Ref(st.alloc(Content("file", {"mode": "r", "path": path, "pos": pos0, "line_fn": line_fn})), "file")
+        pos0, line_fn = reg[key][0], reg[key][1]
+        d = {"mode": "r", "path": path, "pos": pos0, "line_fn": line_fn}
+        if len(reg[key]) > 2:
+            d["nlines"] = reg[key][2]          # total number of lines (needed by readlines())
+        return Ref(st.alloc(Content("file", d)), "file")
     # no line model registered for this path: an opaque handle whose abstract position counts the records consumed by
     # contract-level readers (callee contracts advance it); readline() on it is outside the model
     return Ref(st.alloc(Content("file", {"mode": "r", "path": path, "pos": 0, "line_fn": None})), "file")
@@ -163,6 +175,18 @@ def file_method(interp, f, meth, args, kwargs):
         nd["pos"] = A.simp(sv.add(pos, 1))
         cur().heap[f.sid] = Content("file", nd, c.meta)
         return line
+    if meth == "readlines":
+        if d["mode"] != "r":
+            from .interp import PyRaise
+            raise PyRaise("UnsupportedOperation", "not readable")
+        if d.get("line_fn") is None or d.get("nlines") is None:
+            raise EngineError("readlines() on a file without a line model / line count")
+        from .interp import Ref
+        pos, nl, lf = d["pos"], d["nlines"], d["line_fn"]
+        nd = dict(d)
+        nd["pos"] = nl
+        cur().heap[f.sid] = Content("file", nd, c.meta)
+        return Ref(cur().alloc(Content("list", A.SeqVal(A.simp(sv.sub(nl, pos)), lambda i, pos=pos: lf(A.simp(sv.add(pos, i)))))), "list")
     if meth == "write":
         if d["mode"] != "w":
             from .interp import PyRaise
@@ -200,6 +224,8 @@ def line_method(interp, line, meth, args, kwargs):
         return line.toks
     if meth in ("strip", "rstrip", "lstrip"):
         return line
+    if meth == "startswith" and line.props and "startswith" in line.props and len(args) == 1 and isinstance(args[0], str):
+        return line.props["startswith"](args[0])
     raise EngineError(f"str.{meth} on a file line")
 
 
@@ -389,6 +415,8 @@ def fstring(interp, node, frame):
         if v.format_spec is not None:
             spec = "".join(x.value for x in v.format_spec.values if isinstance(x, ast.Constant))
         val = norm(val) if not isinstance(val, (Text, Tok)) else val
+        if val is None and not spec:
+            val = "None"
         if isinstance(val, str):
             parts.append(val)
         elif spec and spec.endswith("f"):
@@ -441,7 +469,7 @@ def str_method(interp, s, meth, args, kwargs):
         return new_list(s.split(*args))
     if meth in ("lower", "upper", "strip", "rstrip", "lstrip"):
         return getattr(s, meth)(*args)
-    if meth in ("startswith", "endswith"):
+    if meth in ("startswith", "endswith", "isnumeric", "isdigit"):
         return getattr(s, meth)(*args)
     if meth == "format":
         raise EngineError("str.format")
